@@ -24,7 +24,7 @@ import (
 
 // C16 — regex functions match Go regexp; pattern cache is exact, bounded, thread-safe.
 
-const ruleC16 = "rapid regex: (s, p, r) with p from a regex grammar (literals, classes, '.', * + ? {m,n}, capturing groups up to 12 so that $10 vs $1 matters, non-capturing groups, alternation, anchors, (?i)), s over a small alphabet, sometimes with multi-byte characters (a literal, the string-value of a node, or - for the empty string - the empty node-set), r made of literal characters and $n with 1 <= n <= groups, sometimes directly followed by a digit or a letter; plus constant invalid patterns, plus 'pair' cases: matches() with two resembling patterns (suffix/prefix added, one character changed, upper-cased, or independent) in one expression, each answer belonging to its own pattern, plus 'dynamic' cases: 2-5 items carrying their own subject, pattern, replacement and (precomputed) expected result as attributes, judged by one compiled //i[matches(@s, string(@p))] / //i[replace(@s, string(@p), string(@r)) = @e]. Oracle: matches(s,p) = regexp.MustCompile(p).MatchString(s); replace(s,p,r) = ReplaceAllString with every $n read as group n (longest valid group number), cross-checked by a manual expansion from FindAllStringSubmatchIndex; an invalid constant pattern in matches() is a Compile error. rapid cache histories: a cache from NewLoadingCache with capacity 0..5 and a counting, sometimes-failing load function; actions get(key) over a key alphabet larger than the capacity, swapping xpath.RegexpCache for a small custom cache while matches()/replace() are evaluated, and (race build) a block of g goroutines x keys. Invariants after every step: the value returned is the load of exactly the requested key; entries <= capacity when capacity > 0; a cached key is answered without loading and with the stored value; a missing key is loaded exactly once; a failed load is not remembered (the next get loads again); no data race. Non-trivial: regex case with >= 1 group reference or a match; history that crosses the capacity boundary (a reset happened) or contains a failed load followed by a retry; distinct by (s,p,r) / (capacity, history)."
+const ruleC16 = "rapid regex: (s, p, r) with p from a regex grammar (literals, classes, '.', * + ? {m,n}, capturing groups up to 12 so that $10 vs $1 matters, non-capturing groups, alternation, anchors, (?i)), s over a small alphabet, sometimes with multi-byte characters (a literal, the string-value of a node, or - for the empty string - the empty node-set), r made of literal characters and $n with 1 <= n <= groups, sometimes directly followed by a digit or a letter; plus constant invalid patterns, plus 'pair' cases: matches() with two resembling patterns (suffix/prefix added, one character changed, upper-cased, or independent) in one expression, each answer belonging to its own pattern, plus 'dynamic' cases: 2-5 items carrying their own subject, pattern, replacement and (precomputed) expected result as attributes, judged by one compiled //i[matches(@s, string(@p))] / //i[replace(@s, string(@p), string(@r)) = @e]. Oracle: matches(s,p) = regexp.MustCompile(p).MatchString(s); replace(s,p,r) = ReplaceAllString with every $n read as group n (longest valid group number), cross-checked by a manual expansion from FindAllStringSubmatchIndex; an invalid constant pattern in matches() is a Compile error. rapid cache histories: a cache from NewLoadingCache with capacity 0..5 (one case in six: 9..17 or 31..33, filled first) and a counting, sometimes-failing load function; actions get(key) over a key alphabet larger than the capacity, swapping xpath.RegexpCache for a small custom cache while matches()/replace() are evaluated, and (race build) a block of g goroutines x keys. Invariants after every step: the value returned is the load of exactly the requested key; entries <= capacity when capacity > 0; a cached key is answered without loading and with the stored value; a missing key is loaded exactly once; a failed load is not remembered (the next get loads again); no data race. Non-trivial: regex case with >= 1 group reference or a match; history that crosses the capacity boundary (a reset happened) or contains a failed load followed by a retry; distinct by (s,p,r) / (capacity, history)."
 
 var (
 	uC16Regex = harness.NewUnit("C16", "rapid-regex", ruleC16)
@@ -589,13 +589,27 @@ func TestC16Cache(t *testing.T) {
 	runRapid(t, uC16Cache, func(rt *rapid.T) {
 		capacity := rapid.IntRange(0, 5).Draw(rt, "cap")
 		n := rapid.IntRange(2, 24).Draw(rt, "nsteps")
+		keys := cacheKeys
+		if rapid.IntRange(0, 5).Draw(rt, "bigcap") == 5 {
+			// capacities beyond the single digits, with a key alphabet and a history long enough to
+			// fill them: 9..17, 31..33 (a capacity is a number the client chose, not a hint)
+			capacity = rapid.SampledFrom([]int{9, 10, 12, 15, 16, 17, 31, 32, 33}).Draw(rt, "cap-big")
+			keys = nil
+			for i := 0; i < capacity+6; i++ {
+				keys = append(keys, fmt.Sprintf("k%02d", i))
+			}
+			n = rapid.IntRange(capacity+2, 2*capacity+12).Draw(rt, "nsteps-big")
+		}
 		steps := make([]cacheStep, n)
 		for i := range steps {
 			if rapid.IntRange(0, 9).Draw(rt, "kind") == 0 {
 				steps[i] = cacheStep{Op: "swap-eval", Pat: rapid.SampledFrom([]string{"a", "b+", "^c$", "[ab]", "a|b", "(a)(b)", "c?"}).Draw(rt, "pat"), S: rapid.SampledFrom([]string{"a", "ab", "c", "", "bb"}).Draw(rt, "subj")}
 				continue
 			}
-			steps[i] = cacheStep{Op: "get", Key: rapid.SampledFrom(cacheKeys).Draw(rt, "key"), Fail: rapid.IntRange(0, 5).Draw(rt, "fail") == 0}
+			steps[i] = cacheStep{Op: "get", Key: rapid.SampledFrom(keys).Draw(rt, "key"), Fail: rapid.IntRange(0, 5).Draw(rt, "fail") == 0}
+			if capacity > 5 && i < capacity+1 {
+				steps[i].Key, steps[i].Fail = keys[i], false // fill the cache first
+			}
 		}
 		l := &harness.Live{Property: "C16", Check: "C16/cache", Params: map[string]interface{}{"cap": capacity, "steps": steps}}
 		info, f := oracleC16Cache(l)
